@@ -171,6 +171,15 @@ def pseq3 : P Seq3 := do
 def capA (hh : Float) : V3 Float := ⟨0.0, -hh, 0.0⟩
 def capB (hh : Float) : V3 Float := ⟨0.0, hh, 0.0⟩
 
+/-- `approx::ulps_eq!(a, b)` on `f64` with the default `epsilon = f64::EPSILON`, `max_ulps = 4` -/
+def ulpsEqF (a b : Float) : Bool :=
+  if Float.abs (a - b) ≤ Float.ofBits 0x3CB0000000000000 then true
+  else if a.isNaN || b.isNaN then false
+  else if (a.toBits >>> 63) != (b.toBits >>> 63) then false
+  else
+    let x := a.toBits.toNat; let y := b.toBits.toNat
+    if x ≤ y then y - x ≤ 4 else x - y ≤ 4
+
 /-- one dispatcher call for a 3-D pair kind -/
 def seqGen3 (s : Seq3) (pos12 : Iso3 Float) (m : Manifold3 Float) : Manifold3 Float :=
   match s.kind with
@@ -182,7 +191,8 @@ def seqGen3 (s : Seq3) (pos12 : Iso3 Float) (m : Manifold3 Float) : Manifold3 Fl
   | 5 => halfspaceDispatch3 (segmentFeature3 (capA s.b.x) (capB s.b.x)) true pos12 s.a s.b.y s.pred
   | 6 => halfspaceDispatch3 (segmentFeature3 (capA s.a.x) (capB s.a.x)) false pos12 s.b s.a.y s.pred
   | 7 => halfspaceDispatch3 (cuboidSupportFace3 s.b) true pos12 s.a s.e s.pred
-  | _ => halfspaceDispatch3 (cuboidSupportFace3 s.a) false pos12 s.b s.e s.pred
+  | 8 => halfspaceDispatch3 (cuboidSupportFace3 s.a) false pos12 s.b s.e s.pred
+  | _ => capsuleCapsule3 ulpsEqF pos12 (capA s.a.x) (capB s.a.x) s.a.y (capA s.b.x) (capB s.b.x) s.b.y s.pred m
 
 def seqModel3 (s : Seq3) : String :=
   String.intercalate " " ((runSeq (seqGen3 s) Manifold3.new s.poses).map fman3)
@@ -200,6 +210,8 @@ inductive Sh3 where
   | cylinder (hh r : Rat)
   | cone (hh r : Rat)
   | segment (a b : V3 Rat)
+  /-- a capsule with an arbitrary axis -/
+  | capsuleAB (a b : V3 Rat) (r : Rat)
 
 def seqShapes3 (s : Seq3) : Sh3 × Sh3 :=
   let a := q3 s.a; let b := q3 s.b; let e := q s.e
@@ -214,7 +226,7 @@ def seqShapes3 (s : Seq3) : Sh3 × Sh3 :=
   | 7 => (.halfspace a, .cuboid b e)
   | 8 => (.cuboid a e, .halfspace b)
   | 9 => (.cuboid a 0, .cuboid b 0)
-  | _ => (.capsule a.x a.y, .capsule b.x b.y)
+  | _ => (.capsuleAB ⟨0, -a.x, 0⟩ ⟨0, a.x, 0⟩ a.y, .capsuleAB ⟨0, -b.x, 0⟩ ⟨0, b.x, 0⟩ b.y)
 
 def clampR (x lo hi : Rat) : Rat := if x < lo then lo else if hi < x then hi else x
 /-- squared distance from `p` to the cuboid `[-he, he]` -/
@@ -285,6 +297,21 @@ def onShape3 (sh : Sh3) (p : V3 Rat) (tol : Rat) : Option String :=
   | .segment a b =>
     let d2 := segDistSq3 a b p
     if leTol d2 0 tol then none else some s!"off-segment d²={d2}"
+  | .capsuleAB a b r =>
+    let d2 := segDistSq3 a b p
+    if leTol d2 (r * r) tol then none else some s!"outside-capsule d²={d2} r²={r*r}"
+
+/-- exact squared distance of two segments: the minimum over the four end-point/segment distances and, when it exists, the
+interior critical point of the (convex) squared distance on `(0,1)²` -/
+def segSegDistSq3 (a1 b1 a2 b2 : V3 Rat) : Rat :=
+  let ends := min (min (segDistSq3 a2 b2 a1) (segDistSq3 a2 b2 b1)) (min (segDistSq3 a1 b1 a2) (segDistSq3 a1 b1 b2))
+  let d1 := b1.sub a1; let d2 := b2.sub a2; let r := a1.sub a2
+  let a := d1.dot d1; let e := d2.dot d2; let b := d1.dot d2; let c := d1.dot r; let f := d2.dot r
+  let den := a * e - b * b
+  if den = 0 then ends else
+    let s := (b * f - c * e) / den
+    let t := (a * f - b * c) / den
+    if 0 < s && s < 1 && 0 < t && t < 1 then min ends (((r.add (d1.smul s)).sub (d2.smul t)).normSq) else ends
 
 def vertsCuboid (he : V3 Rat) : List (V3 Rat) :=
   [he.x, -he.x].flatMap fun x => [he.y, -he.y].flatMap fun y => [he.z, -he.z].map fun z => ⟨x, y, z⟩
@@ -313,6 +340,8 @@ def exactDist3 (sh : Sh3 × Sh3) (M : Iso3 Rat) : Rat :=
     min (n.dot (M.act ⟨0, -hh, 0⟩)) (n.dot (M.act ⟨0, hh, 0⟩)) - r
   | (.capsule hh r, .halfspace n) =>
     min (n.dot (M.invAct ⟨0, -hh, 0⟩)) (n.dot (M.invAct ⟨0, hh, 0⟩)) - r
+  | (.capsuleAB a1 b1 r1, .capsuleAB a2 b2 r2) =>
+    sq (segSegDistSq3 a1 b1 (M.act a2) (M.act b2)) - r1 - r2
   | _ => 0
 
 def cos1degR : Rat := 99984769515 / 100000000000
@@ -379,7 +408,7 @@ capsule/capsule): witnesses may drift by `√DIST_SQ_THRESHOLD = 1e-3` per conse
 exact distance of the pair is not recomputed by the oracle (the one-shot `contact` is the reference). -/
 def seqOracle3 (s : Seq3) (warm : Bool) (ms : List (Manifold3 Float)) : String :=
   if ms.length != s.poses.length then "fail wrong-number-of-calls" else
-  if (!warm && s.kind > 8) || (warm && (s.kind < 9 || s.kind > 10)) then "skip unknown-kind" else
+  if (!warm && s.kind > 8 && s.kind != 10) || (warm && (s.kind < 9 || s.kind > 10)) then "skip unknown-kind" else
   let sh := seqShapes3 s
   -- `soft`: the first depth-vs-one-shot discrepancy of a SAT/clipping generator (a known limitation with its own
   -- verdict); the remaining calls are still judged and any other failure takes precedence
@@ -606,15 +635,6 @@ def pseq2 : P Seq2 := do
   let poses ← plist piso2
   let o ← (pN (do let f ← pbool; let d ← pfo; pure (f, d)) poses.length) <|> pure []
   pure ⟨k, a, b, pr, poses, o⟩
-
-/-- `approx::ulps_eq!(a, b)` on `f64` with the default `epsilon = f64::EPSILON`, `max_ulps = 4` -/
-def ulpsEqF (a b : Float) : Bool :=
-  if Float.abs (a - b) ≤ Float.ofBits 0x3CB0000000000000 then true
-  else if a.isNaN || b.isNaN then false
-  else if (a.toBits >>> 63) != (b.toBits >>> 63) then false
-  else
-    let x := a.toBits.toNat; let y := b.toBits.toNat
-    if x ≤ y then y - x ≤ 4 else x - y ≤ 4
 
 def seqGen2 (s : Seq2) (pos12 : Iso2 Float) (m : Manifold2 Float) : Manifold2 Float :=
   match s.kind with
@@ -1142,6 +1162,32 @@ def ccOracle (c : CCCase) (outs : List (List OutMan)) : String :=
   | some r => s!"fail {r}"
   | none => "pass"
 
+/-! #### 3-D capsule / capsule called directly -/
+structure Cap3 where
+  pos12 : Iso3 Float
+  a1 : V3 Float
+  b1 : V3 Float
+  r1 : Float
+  a2 : V3 Float
+  b2 : V3 Float
+  r2 : Float
+  pred : Float
+  m : Manifold3 Float
+def pcap3 : P Cap3 := do
+  let p ← piso3; let a1 ← pv3; let b1 ← pv3; let r1 ← pf; let a2 ← pv3; let b2 ← pv3; let r2 ← pf; let pr ← pf; let m ← pman3
+  pure ⟨p, a1, b1, r1, a2, b2, r2, pr, m⟩
+
+/-- the generator writes the first contact only (stale extra points of a foreign manifold are kept): unit opposite normals,
+`dist` identity, witnesses in their capsules, a contact iff the exact capsule distance (exact segment/segment distance − radii)
+is below the prediction, and its `dist` equal to that distance -/
+def cap3Oracle (c : Cap3) (m' : Manifold3 Float) : String :=
+  if m'.points.length > 1 && m'.points.length != c.m.points.length then "fail point-count" else
+  let sh : Sh3 × Sh3 := (.capsuleAB (q3 c.a1) (q3 c.b1) (q c.r1), .capsuleAB (q3 c.a2) (q3 c.b2) (q c.r2))
+  let m1 : Manifold3 Float := { m' with points := m'.points.take 1 }
+  match manifoldOracle3 sh c.pos12 c.pred m1 none 0 true with
+  | some r => s!"fail {r}"
+  | none => "pass"
+
 /-! #### pfm/pfm pairs whose support features are edges -/
 
 structure Pfm3 where
@@ -1304,6 +1350,11 @@ def handler (fn : String) : Option Handler :=
       model := fun a => match run pcc a with | some c => ccModel c | none => none
       oracle := fun a o => match run pcc a with
         | some c => withOut (pcalls c.poses.length) o (ccOracle c)
+        | none => "skip bad-args" }
+  | "cap3" => some {
+      model := fun a => run (do let c ← pcap3; pure (fman3 (capsuleCapsule3 ulpsEqF c.pos12 c.a1 c.b1 c.r1 c.a2 c.b2 c.r2 c.pred c.m))) a
+      oracle := fun a o => match run pcap3 a with
+        | some c => withOut poman3 o (cap3Oracle c)
         | none => "skip bad-args" }
   | "pfm3" => some {
       model := fun _ => some "oracle-only"
